@@ -18,12 +18,31 @@ def symtab_payload(defs):
 def le32(v):
     return (v & 0xFFFFFFFF).to_bytes(4, "little")
 
+def tighten(text, rng):
+    """the same token sequence with the blanks between tokens dropped wherever that cannot merge two tokens: operators
+    glued to their operands (`10 %~3`, `1<<2`, `-(-1)`), as people write them"""
+    toks = text.split(" ")
+    out = toks[0]
+    for a, b in zip(toks, toks[1:]):
+        la, fb = a[-1], b[0]
+        sym = "<>=!&|^~+-*/?:"
+        word = lambda c: c.isalnum() or c in "_.$@'"
+        unsafe = (la in sym and fb in sym) or (word(la) and word(fb)) or (la == "%" and (fb.isdigit() or fb in sym or fb == "(")) \
+            or (fb == "%" and word(la)) or fb == "%" or la == "%" and not (fb in "~!<>")
+        # a `%` directly followed by ~ ! < > is the remainder operator followed by a unary operator
+        if la == "%" and fb in "~!<>":
+            unsafe = False
+        out += (" " if unsafe or rng.random() < 0.35 else "") + b
+    return out
+
 def asm_program(tree, defs_before, defs_after, rng, full):
     def defline(name, d):
         if d[0] == 'V':
             return "@defn %s, %s" % (name, X.num_text(d[1], rng.choice([2, 10, 16]), rng))
-        return "@defl %s, %s" % (name, X.render(d[1], rng, full))
-    e = X.render(tree, rng, full)
+        return "@defl %s, %s" % (name, X.render(d[1], rng, full is True))
+    e = X.render(tree, rng, full is True)
+    if full == "tight":
+        e = tighten(X.render(tree, rng, False), rng)
     lines = [defline(n, d) for n, d in defs_before]
     lines.append("@dw ( %s ) & $ffff , ( ( %s ) >> 16 ) & $ffff" % (e, e))
     lines += [defline(n, d) for n, d in defs_after]
@@ -205,6 +224,7 @@ def run(ck):
     # written with minimal parentheses (this is where a mis-ordered or mis-associated level shows)
     for t in d2_all:
         acases.append((t, [], [], False))
+        acases.append((t, [], [], "tight"))
     # unary stacks and ternary mixes up to depth 3
     for o1 in X.UNOPS:
         for o2 in X.UNOPS:
@@ -229,7 +249,7 @@ def run(ck):
             want = "OK " + le32(int(sp[1])).hex()
         else:
             want = "DIAG"
-        ck.count("asm:" + ("full" if full else "minimal") + ":" + sp[0])
+        ck.count("asm:" + ("tight" if full == "tight" else "full" if full else "minimal") + ":" + sp[0])
         if i % 4999 == 0:
             ck.sample({"mode": "asm", "source": tx, "impl": r.canon(), "expected": want})
         got = r.canon()
@@ -249,6 +269,9 @@ def run(ck):
             s = run_cases(model, ["ceval\t%s\t%s" % (symtab_payload(b + a), X.prefix(small))], shards=1)[0].split("\t")
             w = "OK " + le32(int(s[1])).hex() if s[0] == "VAL" else "DIAG"
             g = AsmResult(run_cases(harness, [asm_case("z80", text=txx)], shards=1)[0])
+            if g.canon() == w:
+                # the shrunk tree re-rendered (random spacing / bases) no longer fails: report the original text
+                txx, g, w = tx, r, want
             ck.violation("assembling %r gives %s, C semantics gives %s" % (txx, g.canon() + ((" " + (g.msg or "")) if not g.ok else ""), w),
                          {"mode": "asm", "arch": "z80", "source": txx, "expected": w, "harness_case": asm_case("z80", text=txx)})
             if len(ck.violations) >= 3:
